@@ -29,10 +29,40 @@ pub enum Op {
     ParseI32,
     ParseU64,
     ParseBool,
+    /// the remaining integer types: (width, signed, pointer-sized)
+    ParseI16,
+    ParseU32,
+    ParseI64,
+    ParseU128,
+    ParseI128,
+    ParseUsize,
+    ParseIsize,
+    /// char-pattern forms of the pattern operations (same model operation on the char's UTF-8 bytes)
+    StripPrefixC(char),
+    StripSuffixC(char),
+    TrimMatchesC(char),
+    TrimStartMatchesC(char),
+    TrimEndMatchesC(char),
+    FindSkipC(char),
+    RFindSkipC(char),
+    SplitC(char),
+    RSplitC(char),
+    SplitTerminatorC(char),
+    RSplitTerminatorC(char),
+    SplitKeepC(char),
 }
 use Op::*;
 
 pub const PARSE_OPS: [Op; 6] = [ParseU8, ParseI8, ParseU16, ParseI32, ParseU64, ParseBool];
+pub const MORE_PARSE_OPS: [Op; 7] = [ParseI16, ParseU32, ParseI64, ParseU128, ParseI128, ParseUsize, ParseIsize];
+pub fn char_ops(c: char) -> [Op; 12] {
+    [StripPrefixC(c), StripSuffixC(c), TrimMatchesC(c), TrimStartMatchesC(c), TrimEndMatchesC(c), FindSkipC(c), RFindSkipC(c),
+     SplitC(c), RSplitC(c), SplitTerminatorC(c), RSplitTerminatorC(c), SplitKeepC(c)]
+}
+fn chex(c: char) -> String {
+    let mut b = [0u8; 4];
+    hex(c.encode_utf8(&mut b).as_bytes())
+}
 pub const OPS: [Op; 33] = [
     Skip(1), Skip(2), SkipBack(1), SkipBack(2), Trim, TrimStart, TrimEnd,
     TrimMatches("a"), TrimMatches("ab"), TrimMatches(""), TrimStartMatches("a"), TrimStartMatches("-"), TrimEndMatches("é"), TrimEndMatches("a"),
@@ -67,6 +97,25 @@ impl Op {
             ParseI32 => "[parse_int,32,T]".into(),
             ParseU64 => "[parse_int,64,F]".into(),
             ParseBool => "[parse_bool]".into(),
+            ParseI16 => "[parse_int,16,T]".into(),
+            ParseU32 => "[parse_int,32,F]".into(),
+            ParseI64 => "[parse_int,64,T]".into(),
+            ParseU128 => "[parse_int,128,F]".into(),
+            ParseI128 => "[parse_int,128,T]".into(),
+            ParseUsize => format!("[parse_int,{},F]", usize::BITS),
+            ParseIsize => format!("[parse_int,{},T]", usize::BITS),
+            StripPrefixC(c) => format!("[strip_prefix,{}]", chex(c)),
+            StripSuffixC(c) => format!("[strip_suffix,{}]", chex(c)),
+            TrimMatchesC(c) => format!("[trim_matches,{}]", chex(c)),
+            TrimStartMatchesC(c) => format!("[trim_start_matches,{}]", chex(c)),
+            TrimEndMatchesC(c) => format!("[trim_end_matches,{}]", chex(c)),
+            FindSkipC(c) => format!("[find_skip,{}]", chex(c)),
+            RFindSkipC(c) => format!("[rfind_skip,{}]", chex(c)),
+            SplitC(c) => format!("[split,{}]", chex(c)),
+            RSplitC(c) => format!("[rsplit,{}]", chex(c)),
+            SplitTerminatorC(c) => format!("[split_terminator,{}]", chex(c)),
+            RSplitTerminatorC(c) => format!("[rsplit_terminator,{}]", chex(c)),
+            SplitKeepC(c) => format!("[split_keep,{}]", chex(c)),
         }
     }
 }
@@ -130,6 +179,61 @@ fn apply<'a>(p: Parser<'a>, op: Op) -> R<'a> {
         ParseBool => {
             let (v, q) = p.parse_bool()?;
             (Some(show_bool(v).to_string()), q)
+        }
+        ParseI16 => {
+            let (v, q) = p.parse_i16()?;
+            (Some(v.to_string()), q)
+        }
+        ParseU32 => {
+            let (v, q) = p.parse_u32()?;
+            (Some(v.to_string()), q)
+        }
+        ParseI64 => {
+            let (v, q) = p.parse_i64()?;
+            (Some(v.to_string()), q)
+        }
+        ParseU128 => {
+            let (v, q) = p.parse_u128()?;
+            (Some(v.to_string()), q)
+        }
+        ParseI128 => {
+            let (v, q) = p.parse_i128()?;
+            (Some(v.to_string()), q)
+        }
+        ParseUsize => {
+            let (v, q) = p.parse_usize()?;
+            (Some(v.to_string()), q)
+        }
+        ParseIsize => {
+            let (v, q) = p.parse_isize()?;
+            (Some(v.to_string()), q)
+        }
+        StripPrefixC(x) => (None, p.strip_prefix(x)?),
+        StripSuffixC(x) => (None, p.strip_suffix(x)?),
+        TrimMatchesC(x) => (None, p.trim_matches(x)),
+        TrimStartMatchesC(x) => (None, p.trim_start_matches(x)),
+        TrimEndMatchesC(x) => (None, p.trim_end_matches(x)),
+        FindSkipC(x) => (None, p.find_skip(x)?),
+        RFindSkipC(x) => (None, p.rfind_skip(x)?),
+        SplitC(x) => {
+            let (s, q) = p.split(x)?;
+            (Some(hex(s.as_bytes())), q)
+        }
+        RSplitC(x) => {
+            let (s, q) = p.rsplit(x)?;
+            (Some(hex(s.as_bytes())), q)
+        }
+        SplitTerminatorC(x) => {
+            let (s, q) = p.split_terminator(x)?;
+            (Some(hex(s.as_bytes())), q)
+        }
+        RSplitTerminatorC(x) => {
+            let (s, q) = p.rsplit_terminator(x)?;
+            (Some(hex(s.as_bytes())), q)
+        }
+        SplitKeepC(x) => {
+            let (s, q) = p.split_keep(x)?;
+            (Some(hex(s.as_bytes())), q)
         }
     })
 }
@@ -211,6 +315,17 @@ pub fn free_fn<'a>(prev: &'a str, op: Op) -> Option<Option<&'a str>> {
         RSplit(x) | RSplitTerminator(x) => kstr::rsplit_once(prev, x).map(|p| p.0),
         SplitKeep(x) => kstr::find(prev, x).map(|i| &prev[i..]),
         ParseU8 | ParseI8 | ParseU16 | ParseI32 | ParseU64 | ParseBool => return None,
+        ParseI16 | ParseU32 | ParseI64 | ParseU128 | ParseI128 | ParseUsize | ParseIsize => return None,
+        TrimMatchesC(x) => Some(kstr::trim_matches(prev, x)),
+        TrimStartMatchesC(x) => Some(kstr::trim_start_matches(prev, x)),
+        TrimEndMatchesC(x) => Some(kstr::trim_end_matches(prev, x)),
+        StripPrefixC(x) => kstr::strip_prefix(prev, x),
+        StripSuffixC(x) => kstr::strip_suffix(prev, x),
+        FindSkipC(x) => kstr::find_skip(prev, x),
+        RFindSkipC(x) => kstr::rfind_skip(prev, x),
+        SplitC(x) | SplitTerminatorC(x) => kstr::split_once(prev, x).map(|p| p.1),
+        RSplitC(x) | RSplitTerminatorC(x) => kstr::rsplit_once(prev, x).map(|p| p.0),
+        SplitKeepC(x) => kstr::find(prev, x).map(|i| &prev[i..]),
     })
 }
 
@@ -320,6 +435,79 @@ pub fn run(cfg: &Cfg, out: &mut Out) {
                             }
                         }
                     }
+                }
+            }
+        }
+    }
+    // all twelve integer types and bool through the Parser (the first six are in every pair above):
+    // boundary numerals of every width, zero-padded, signed/unsigned, with a tail and a following probe
+    {
+        let mut nums: Vec<String> = Vec::new();
+        for w in [8u32, 16, 32, 64, 128] {
+            let umax = if w == 128 { u128::MAX } else { (1u128 << w) - 1 };
+            let imax = umax >> 1;
+            for v in [umax, umax - 1, imax, imax + 1, imax + 2] {
+                nums.push(v.to_string());
+                nums.push(format!("-{}", v));
+                nums.push(format!("00{}", v));
+            }
+            nums.push(format!("{}0", umax));
+            nums.push(format!("{}9", umax / 10));
+        }
+        nums.extend(["0", "-0", "-", "+1", "9", "-9", "340282366920938463463374607431768211456", "-170141183460469231731687303715884105729"].iter().map(|s| s.to_string()));
+        for n in &nums {
+            for tail in ["", ";x", "é"] {
+                let s = format!("{}{}", n, tail);
+                for a in MORE_PARSE_OPS {
+                    emit(out, &s, 0, &[a]);
+                    emit(out, &s, 7, &[a, Skip(1)]);
+                    emit(out, &s, 0, &[SkipBack(1), a]);
+                }
+                for a in PARSE_OPS {
+                    emit(out, &s, 7, &[a]);
+                }
+            }
+        }
+    }
+    // char patterns (str::Pattern for char goes through encode_utf8) and one char of every UTF-8
+    // lead-byte class in the text: skip / skip_back round to boundaries, patterns of every width
+    {
+        let sweep = lead_byte_sweep();
+        let texts: Vec<String> = {
+            let mut t: Vec<String> = Vec::new();
+            for &c in &sweep {
+                t.push(format!("{}", c));
+                t.push(format!("a{}b", c));
+                t.push(format!("{}{}", c, c));
+                t.push(format!("-{}-{}a", c, c));
+            }
+            t
+        };
+        for s in &texts {
+            for n in 1..=5usize {
+                emit(out, s, 0, &[Skip(n)]);
+                emit(out, s, 7, &[SkipBack(n)]);
+                emit(out, s, 0, &[Skip(n), SkipBack(1)]);
+                emit(out, s, 0, &[SkipBack(n), Skip(1)]);
+            }
+            for &c in &sweep {
+                if s.contains(c) {
+                    for a in char_ops(c) {
+                        emit(out, s, 0, &[a]);
+                        emit(out, s, 7, &[a, a]);
+                    }
+                }
+            }
+            for a in char_ops('a') {
+                emit(out, s, 0, &[a, Skip(1)]);
+            }
+        }
+        for s in &strs {
+            for c in ['a', 'é', '-'] {
+                for a in char_ops(c) {
+                    emit(out, s, 0, &[a]);
+                    emit(out, s, 7, &[a, a]);
+                    emit(out, s, 0, &[TrimEnd, a]);
                 }
             }
         }
